@@ -24,9 +24,9 @@ type renderCfg struct {
 	Rows    []int `json:"rows"`
 	Msink   bool  `json:"msink"`
 	// components of Tpl (Tpl = TplStatic + ValLen + (ErrLen > 0 ? ErrLen+1 : 0)); all zero = Tpl is plain template text
-	TplStatic int `json:"tplstatic"`
-	ErrLen    int `json:"errlen"`
-	ValLen    int `json:"vallen"`
+	TplStatic int  `json:"tplstatic"`
+	ErrLen    int  `json:"errlen"`
+	ValLen    int  `json:"vallen"`
 	Utf       bool `json:"utf"` // contents made of two-byte UTF-8 characters (sizes are BYTES)
 }
 
